@@ -525,94 +525,55 @@ func TestC23(t *testing.T) {
 		if i < 40 && i%7 == 0 {
 			m.Sample(map[string]any{"kind": kindNames[kind], "mutation": mutNames[mut], "input": mon.Hex(in)})
 		}
-		cp := append([]byte(nil), in...) // readers get a private copy: they must not write through it
-		for _, rd := range readers {
-			p := rd.pred(in)
-			var ok bool
-			var val string
-			var rest []byte
-			pv, stack := mon.Panics(func() { ok, val, rest = rd.run(cp) })
-			m.Eval()
-			wit := func() map[string]any {
-				return map[string]any{"reader": rd.name, "input": mon.FullHex(trunc(in)), "input_len": len(in), "kind": kindNames[kind], "mutation": mutNames[mut],
-					"predicate": p.zone.String(), "reason": p.reason, "want_value": truncS(p.val), "got_ok": ok, "got_value": truncS(val)}
-			}
-			if pv != nil {
-				w := wit()
-				w["panic"] = fmt.Sprint(pv)
-				m.Violation("panic:"+mon.PanicSite(stack), w)
-				continue
-			}
-			if !bytes.Equal(cp, in) {
-				m.Violation("reader-modified-input:"+rd.name, wit())
-				cp = append([]byte(nil), in...)
-			}
-			m.Distinct(fmt.Sprintf("%s/%s/%s/%s/%s", kindNames[kind], mutNames[mut], rd.name, p.zone, p.reason))
-			switch p.zone {
-			case der.Accept:
-				m.Count("accept:"+rd.name, 1)
-				class := ""
-				if p.reason != "" { // a DER form with a class of its own (fractional seconds)
-					class = ":" + p.reason
-					m.Count("accept-class:"+p.reason, 1)
-				}
-				if !ok {
-					m.Violation("rejects-der:"+rd.name+class, wit())
-				} else {
-					if val != p.val {
-						m.Violation("wrong-value:"+rd.name, wit())
-					}
-					if len(rest) != len(in)-p.total || !bytes.Equal(rest, in[p.total:]) {
-						w := wit()
-						w["rest_len"], w["want_rest_len"] = len(rest), len(in)-p.total
-						m.Violation("wrong-advance:"+rd.name, w)
-					}
-				}
-			case der.Reject:
-				m.Count("reject:"+rd.name, 1)
-				m.Count("reject-class:"+p.reason, 1)
-				if ok {
-					m.Violation("accepts-non-der:"+rd.name+":"+p.reason, wit())
-					if p.val != "" && val != p.val {
-						m.Violation("wrong-value:"+rd.name+":"+p.reason, wit())
-					}
-				}
-			default:
-				if ok {
-					m.Count("either-accepted:"+p.reason, 1)
-					if val != p.val { // whatever the form, the instant / arcs denoted are unambiguous
-						m.Violation("wrong-value:"+rd.name+":"+p.reason, wit())
-					}
-				} else {
-					m.Count("either-rejected:"+p.reason, 1)
-				}
-			}
-			if rd.std != nil {
-				sok, sval, srest := rd.std(in)
-				if sok && ok {
-					m.Count("std-both-accept:"+rd.name, 1)
-					if sval != val || len(srest) != len(rest) {
-						if p.zone != der.Reject && val == p.val {
-							m.Inconclusive(fmt.Sprintf("encoding/asn1 disagrees with the DER reference and cryptobyte on %x (%s): %s vs %s", trunc(in), rd.name, truncS(sval), truncS(val)))
-						} else {
-							w := wit()
-							w["encoding_asn1_value"] = truncS(sval)
-							m.Violation("differs-from-encoding-asn1:"+rd.name, w)
-						}
-					}
-				} else if sok != ok {
-					m.Count("std-acceptance-differs(not judged):"+rd.name, 1)
-				}
+		runReaders(m, readers, in, kindNames[kind], mutNames[mut])
+	})
+
+	// ---- UTCTime with a numeric differential at the 49/50 (and 99/00) year pivot ----
+	// Index-driven: YY x {Dec 31 just before midnight, Jan 1 just after} x differential x {with, without seconds};
+	// the local time lies within |differential| of the year boundary, so that for half of the sign combinations the
+	// UTC instant and the local year digits fall on different sides of the boundary. The century follows the YY
+	// digits (RFC 5280 4.1.2.5.1), which is what h/ref/der predicts; encoding/asn1 is compared where it accepts.
+	pivotYY := []int{49, 50, 0, 99}
+	pivotOff := []int{60, -60, 300, -300, 840, -720, 30} // minutes
+	m.Cases("utctime-pivot", m.N(2240, 44800), func(i int64, r *rand.Rand) {
+		k := int(i)
+		yy := pivotYY[k%4]
+		end := k/4%2 == 0
+		off := pivotOff[k/8%7]
+		withSec := k/56%2 == 0
+		a := off
+		sign := "+"
+		if a < 0 {
+			a, sign = -a, "-"
+		}
+		d := 1 + r.IntN(a) // minutes from the year boundary, 1..|off|
+		if r.IntN(3) == 0 {
+			d = []int{1, a}[r.IntN(2)]
+		}
+		mo, day, minOfDay := 12, 31, 1440-d
+		if !end {
+			mo, day, minOfDay = 1, 1, d-1
+		}
+		sec := r.IntN(60)
+		s := fmt.Sprintf("%02d%02d%02d%02d%02d", yy, mo, day, minOfDay/60, minOfDay%60)
+		if withSec {
+			s += fmt.Sprintf("%02d", sec)
+		}
+		s += fmt.Sprintf("%s%02d%02d", sign, a/60, a%60)
+		in := der.EncodeTLV(tagUTC, []byte(s))
+		// the local year digits and the UTC instant are on different sides of the year boundary iff ...
+		straddles := (end && off < 0) || (!end && off > 0)
+		m.Count("utctime_pivot_cases", 1)
+		if straddles {
+			m.Count(fmt.Sprintf("utctime_pivot_straddling:yy=%02d", yy), 1)
+			if yy == 49 || yy == 50 {
+				m.Count("utctime_pivot_straddling_2050", 1)
 			}
 		}
-		// PeekASN1Tag on well-formed elements and on the empty string
-		if t, why := der.ParseTLV(in); why == "" {
-			own, other := tagsFor(in)
-			if !cryptobyte.String(in).PeekASN1Tag(asn1.Tag(own)) || cryptobyte.String(in).PeekASN1Tag(asn1.Tag(other)) || cryptobyte.String(nil).PeekASN1Tag(asn1.Tag(own)) {
-				m.Violation("PeekASN1Tag-wrong", map[string]any{"input": mon.FullHex(trunc(in)), "tag": t.Tag})
-			}
-			m.Count("peek_checked", 1)
+		if i < 6 {
+			m.Sample(map[string]any{"kind": "utctime-pivot", "string": s, "straddles": straddles})
 		}
+		runReaders(m, readers, in, "utctime-pivot", fmt.Sprintf("yy=%02d end=%v off=%s%02d%02d sec=%v", yy, end, sign, a/60, a%60, withSec))
 	})
 
 	// ---- Add* builders emit DER ----
@@ -639,12 +600,240 @@ func TestC23(t *testing.T) {
 	m.Gate("accept-class:fractional-seconds", 5, "DER GeneralizedTime with fractional seconds")
 	m.Gate("builder_time_non_utc:AddASN1GeneralizedTime", 200, "GeneralizedTime built from a time in a non-UTC zone")
 	m.Gate("builder_time_non_utc:AddASN1UTCTime", 100, "UTCTime built from a time in a non-UTC zone")
+	m.Gate("utctime_pivot_straddling_2050", m.N(100, 2000), "UTCTime with a numeric differential whose UTC instant and local year digits lie on different sides of 2050-01-01T00:00Z")
+	m.Gate("value-checked-in-class:offset-instead-of-Z", 200, "value of an accepted time with a numeric differential compared with the reference")
+	m.Gate("value-checked-in-class:no-seconds+offset-instead-of-Z", 100, "same, without seconds")
+	m.Gate("aliased_values_held", m.N(20000, 1000000), "slices sharing memory with the String re-checked after later reads")
+	m.Gate("builder_args_checked", m.N(10000, 500000), "Add* arguments verified unchanged")
 	m.Gate("builder_outputs_checked", m.N(20000, 1000000), "AddASN1* outputs compared with the reference encoder")
 	m.Gate("std-both-accept:ReadASN1Integer(*int64)", 100, "differential comparisons with encoding/asn1")
 }
 
 // mutRotation: every mutation once, "valid" three times, "type-specific" five times.
 var mutRotation = []int{0, 1, 2, 3, 13, 4, 5, 6, 0, 7, 8, 13, 9, 10, 11, 13, 12, 0, 14, 13, 15, 16, 17, 13, 18}
+
+// runReaders runs every reader on a private copy of in (with sentinel-filled spare capacity) and judges it.
+func runReaders(m *mon.M, readers []reader, in []byte, kindName, mutName string) {
+	// readers get a private copy followed by sentinel-filled spare capacity: they must not write through either
+	backing := newGuarded(in)
+	cp := backing[:len(in)]
+	for _, rd := range readers {
+		p := rd.pred(in)
+		var ok bool
+		var val string
+		var rest []byte
+		pv, stack := mon.Panics(func() { ok, val, rest = rd.run(cp) })
+		m.Eval()
+		wit := func() map[string]any {
+			return map[string]any{"reader": rd.name, "input": mon.FullHex(trunc(in)), "input_len": len(in), "kind": kindName, "mutation": mutName,
+				"predicate": p.zone.String(), "reason": p.reason, "want_value": truncS(p.val), "got_ok": ok, "got_value": truncS(val)}
+		}
+		if pv != nil {
+			w := wit()
+			w["panic"] = fmt.Sprint(pv)
+			m.Violation("panic:"+mon.PanicSite(stack), w)
+			continue
+		}
+		if !guardedIntact(backing, in) {
+			m.Violation("reader-modified-input:"+rd.name, wit())
+			backing = newGuarded(in)
+			cp = backing[:len(in)]
+		}
+		// encoding/asn1 as second witness for the value (never for acceptance)
+		var sok bool
+		var sval string
+		var srest []byte
+		if rd.std != nil {
+			sok, sval, srest = rd.std(in)
+		}
+		// wrongValue: cryptobyte accepted and returned something else than the reference predicts. If encoding/asn1
+		// accepts too and sides with cryptobyte the two oracles disagree: inconclusive, not a violation.
+		wrongValue := func(key string) {
+			if sok && sval == val {
+				m.Inconclusive(fmt.Sprintf("DER reference disagrees with both cryptobyte and encoding/asn1 on %x (%s): %s vs %s", trunc(in), rd.name, truncS(p.val), truncS(val)))
+				return
+			}
+			w := wit()
+			if sok {
+				w["encoding_asn1_value"] = truncS(sval)
+			}
+			m.Violation(key, w)
+		}
+		m.Distinct(fmt.Sprintf("%s/%s/%s/%s/%s", kindName, mutName, rd.name, p.zone, p.reason))
+		switch p.zone {
+		case der.Accept:
+			m.Count("accept:"+rd.name, 1)
+			class := ""
+			if p.reason != "" { // a DER form with a class of its own (fractional seconds)
+				class = ":" + p.reason
+				m.Count("accept-class:"+p.reason, 1)
+			}
+			if !ok {
+				m.Violation("rejects-der:"+rd.name+class, wit())
+			} else {
+				if val != p.val {
+					wrongValue("wrong-value:" + rd.name + class)
+				}
+				if len(rest) != len(in)-p.total || !bytes.Equal(rest, in[p.total:]) {
+					w := wit()
+					w["rest_len"], w["want_rest_len"] = len(rest), len(in)-p.total
+					m.Violation("wrong-advance:"+rd.name, w)
+				}
+			}
+		case der.Reject:
+			m.Count("reject:"+rd.name, 1)
+			m.Count("reject-class:"+p.reason, 1)
+			if ok {
+				m.Violation("accepts-non-der:"+rd.name+":"+p.reason, wit())
+				if p.val != "" { // not DER but the value denoted is unambiguous: judged under its own key, never the acceptance key
+					m.Count("value-checked-in-class:"+p.reason, 1)
+					if val != p.val {
+						wrongValue("wrong-value:" + rd.name + ":" + p.reason)
+					}
+				}
+			}
+		default:
+			if ok {
+				m.Count("either-accepted:"+p.reason, 1)
+				if val != p.val { // whatever the form, the instant / arcs denoted are unambiguous
+					wrongValue("wrong-value:" + rd.name + ":" + p.reason)
+				}
+			} else {
+				m.Count("either-rejected:"+p.reason, 1)
+			}
+		}
+		if rd.std != nil {
+			if sok && ok {
+				m.Count("std-both-accept:"+rd.name, 1)
+				if sval != val || len(srest) != len(rest) {
+					if p.val != "" && val == p.val && len(srest) == len(rest) {
+						m.Inconclusive(fmt.Sprintf("encoding/asn1 disagrees with the DER reference and cryptobyte on %x (%s): %s vs %s", trunc(in), rd.name, truncS(sval), truncS(val)))
+					} else {
+						w := wit()
+						w["encoding_asn1_value"] = truncS(sval)
+						m.Violation("differs-from-encoding-asn1:"+rd.name, w)
+					}
+				}
+			} else if sok != ok {
+				m.Count("std-acceptance-differs(not judged):"+rd.name, 1)
+			}
+		}
+	}
+	// PeekASN1Tag on well-formed elements and on the empty string
+	if t, why := der.ParseTLV(in); why == "" {
+		own, other := tagsFor(in)
+		if !cryptobyte.String(in).PeekASN1Tag(asn1.Tag(own)) || cryptobyte.String(in).PeekASN1Tag(asn1.Tag(other)) || cryptobyte.String(nil).PeekASN1Tag(asn1.Tag(own)) {
+			m.Violation("PeekASN1Tag-wrong", map[string]any{"input": mon.FullHex(trunc(in)), "tag": t.Tag})
+		}
+		m.Count("peek_checked", 1)
+	}
+	if !guardedIntact(backing, in) {
+		m.Violation("reader-modified-input:PeekASN1Tag", map[string]any{"input": mon.FullHex(trunc(in))})
+	}
+	aliasCheck(m, in)
+}
+
+const guardLen = 24
+
+// newGuarded returns in followed by guardLen sentinel bytes, all inside one allocation.
+func newGuarded(in []byte) []byte {
+	b := make([]byte, len(in)+guardLen)
+	copy(b, in)
+	for i := len(in); i < len(b); i++ {
+		b[i] = 0xa5
+	}
+	return b
+}
+
+func guardedIntact(b, in []byte) bool {
+	if len(b) != len(in)+guardLen || !bytes.Equal(b[:len(in)], in) {
+		return false
+	}
+	for _, c := range b[len(in):] {
+		if c != 0xa5 {
+			return false
+		}
+	}
+	return true
+}
+
+// aliasCheck: values that share memory with the String (ReadASN1Bytes, ReadASN1Element, ReadASN1Integer(*[]byte),
+// BIT STRING bytes, ReadBytes) must still equal their snapshot after every other reader ran on the rest of the
+// same String, and the String's memory (incl. spare capacity) must be untouched.
+func aliasCheck(m *mon.M, in []byte) {
+	tl, why := der.ParseTLV(in)
+	if why != "" || len(in) > 4096 {
+		return
+	}
+	// first element, then the same element again, then an INTEGER and a BIT STRING to give the later reads something to do
+	tail := append(append([]byte(nil), in[:tl.Total]...), 0x02, 0x02, 0x01, 0x00, 0x03, 0x02, 0x00, 0xff, 0x04, 0x01, 0x07)
+	whole := append(append([]byte(nil), in[:tl.Total]...), tail...)
+	backing := newGuarded(whole)
+	s := cryptobyte.String(backing[:len(whole)])
+	type held struct {
+		name string
+		b    []byte
+		snap []byte
+	}
+	var hs []held
+	hold := func(name string, b []byte) { hs = append(hs, held{name, b, append([]byte(nil), b...)}) }
+	var a []byte
+	var e, any1 cryptobyte.String
+	var tag asn1.Tag
+	cp := s
+	if cp.ReadASN1Bytes(&a, asn1.Tag(tl.Tag)) {
+		hold("ReadASN1Bytes", a)
+	}
+	if s.ReadASN1Element(&e, asn1.Tag(tl.Tag)) {
+		hold("ReadASN1Element", e)
+	}
+	if s.ReadAnyASN1(&any1, &tag) {
+		hold("ReadAnyASN1", any1)
+	}
+	var mag []byte
+	if s.ReadASN1Integer(&mag) {
+		hold("ReadASN1Integer(*[]byte)", mag)
+	}
+	var bs encasn1.BitString
+	if s.ReadASN1BitString(&bs) {
+		hold("ReadASN1BitString", bs.Bytes)
+	}
+	var raw []byte
+	if s.ReadBytes(&raw, 2) {
+		hold("ReadBytes", raw)
+	}
+	var u uint8
+	s.ReadUint8(&u)
+	cpy := make([]byte, 1)
+	s.CopyBytes(cpy)
+	// typed reads over the held memory itself
+	for _, h := range hs {
+		t := cryptobyte.String(h.b)
+		var x int64
+		var bi big.Int
+		var oid encasn1.ObjectIdentifier
+		var tm time.Time
+		t.ReadASN1Integer(&x)
+		t = cryptobyte.String(h.b)
+		t.ReadASN1Integer(&bi)
+		t = cryptobyte.String(h.b)
+		t.ReadASN1ObjectIdentifier(&oid)
+		t = cryptobyte.String(h.b)
+		t.ReadASN1UTCTime(&tm)
+		t = cryptobyte.String(h.b)
+		t.SkipASN1(asn1.Tag(tl.Tag))
+	}
+	m.Count("alias_checks", 1)
+	m.Count("aliased_values_held", len(hs))
+	for _, h := range hs {
+		if !bytes.Equal(h.b, h.snap) {
+			m.Violation("aliased-value-changed-by-later-read:"+h.name, map[string]any{"input": mon.FullHex(whole)})
+		}
+	}
+	if !guardedIntact(backing, whole) {
+		m.Violation("reader-modified-input:read-sequence", map[string]any{"input": mon.FullHex(whole)})
+	}
+}
 
 var typeSpecificRank, typeSpecificPerRound = func() (map[int]int, int) {
 	rk := map[int]int{}
@@ -687,7 +876,7 @@ func checkBuilders(m *mon.M, i int64, r *rand.Rand) {
 		build   func(b *cryptobyte.Builder)
 		want    []byte // nil: error expected
 		wantErr bool
-		std     any  // value for asn1.Marshal (nil: none)
+		std     any // value for asn1.Marshal (nil: none)
 		stdPar  string
 		alt     []byte // time in a non-UTC zone: the non-DER encoding with a numeric differential
 		skip    bool   // time in a non-UTC zone whose UTC year leaves the representable range: not judged
@@ -706,9 +895,14 @@ func checkBuilders(m *mon.M, i int64, r *rand.Rand) {
 		cs = append(cs, bcase{name: "AddASN1Uint64", build: func(b *cryptobyte.Builder) { b.AddASN1Uint64(x) }, want: der.EncodeTLV(tagInt, der.IntContent(v)), std: v})
 	}
 	cs = append(cs, bcase{name: "AddASN1BigInt", build: func(b *cryptobyte.Builder) { b.AddASN1BigInt(v) }, want: der.EncodeTLV(tagInt, der.IntContent(v)), std: v})
-	oct := mon.Bytes(r, []int{0, 1, 20, 127, 128, 255, 256, 300, 65535, 65536}[r.IntN(10)])
+	octSnap := mon.Bytes(r, []int{0, 1, 20, 127, 128, 255, 256, 300, 65535, 65536}[r.IntN(10)])
+	octB := newGuarded(octSnap) // arguments are handed over with sentinel-filled spare capacity and verified afterwards
+	oct := octB[:len(octSnap)]
 	cs = append(cs, bcase{name: "AddASN1OctetString", build: func(b *cryptobyte.Builder) { b.AddASN1OctetString(oct) }, want: der.EncodeTLV(tagOctet, oct), std: oct})
-	bits := mon.Bytes(r, []int{0, 1, 20, 126, 127, 128, 255}[r.IntN(7)])
+	bitsSnap := mon.Bytes(r, []int{0, 1, 20, 126, 127, 128, 255}[r.IntN(7)])
+	bitsB := newGuarded(bitsSnap)
+	bits := bitsB[:len(bitsSnap)]
+	vSnap := new(big.Int).Set(v)
 	cs = append(cs, bcase{name: "AddASN1BitString", build: func(b *cryptobyte.Builder) { b.AddASN1BitString(bits) }, want: der.EncodeTLV(tagBits, append([]byte{0}, bits...)),
 		std: encasn1.BitString{Bytes: bits, BitLength: 8 * len(bits)}})
 	bv := r.IntN(2) == 0
@@ -786,6 +980,23 @@ func checkBuilders(m *mon.M, i int64, r *rand.Rand) {
 		far := time.Date(y, 1, 1, 0, 0, 0, 0, time.UTC)
 		cs = append(cs, bcase{name: "AddASN1GeneralizedTime(out-of-range)", build: func(b *cryptobyte.Builder) { b.AddASN1GeneralizedTime(far) }, wantErr: true})
 	}
+	var oidSnap encasn1.ObjectIdentifier
+	defer func() {
+		m.Count("builder_args_checked", 4)
+		if !guardedIntact(octB, octSnap) {
+			m.Violation("builder-modified-argument:AddASN1OctetString", map[string]any{"arg": mon.Hex(octSnap)})
+		}
+		if !guardedIntact(bitsB, bitsSnap) {
+			m.Violation("builder-modified-argument:AddASN1BitString", map[string]any{"arg": mon.Hex(bitsSnap)})
+		}
+		if v.Cmp(vSnap) != 0 {
+			m.Violation("builder-modified-argument:AddASN1BigInt", map[string]any{"arg": vSnap.String()})
+		}
+		if !oid.Equal(oidSnap) {
+			m.Violation("builder-modified-argument:AddASN1ObjectIdentifier", map[string]any{"arg": oidSnap.String()})
+		}
+	}()
+	oidSnap = append(oidSnap, oid...)
 	for _, bcs := range cs {
 		// random embedding: alone, or inside a SEQUENCE after another element
 		nested := r.IntN(3) == 0
